@@ -498,13 +498,16 @@ End Valid.
    - marking-definition: `definition` is of the marking type `definition_type` names (marking_match below).
    valid_obj_x is what the C02 oracle evaluates on the implementation's output and what the C03 generator
    filters candidates with.                                                                            *)
-Definition strict_base64 (s : ustring) : bool :=
-  Nat.eqb (Nat.modulo (List.length s) 4) 0 &&
-  match rev s with
-  | 61%N :: 61%N :: r => forallb is_b64char r
-  | 61%N :: r => forallb is_b64char r
-  | r => forallb is_b64char r
+(* the text read backwards, without its (at most two) trailing '=' *)
+Definition strip_pad (r : ustring) : ustring :=
+  match r with
+  | c1 :: r1 => if (c1 =? 61)%N
+                then match r1 with c2 :: r2 => if (c2 =? 61)%N then r2 else r1 | [] => r1 end
+                else r
+  | [] => r
   end.
+Definition strict_base64 (s : ustring) : bool :=
+  Nat.eqb (Nat.modulo (List.length s) 4) 0 && forallb is_b64char (strip_pad (rev s)).
 
 Fixpoint dict_value_ok (j : jvalue) : bool :=
   match j with
@@ -542,20 +545,33 @@ Definition marking_match (sw : world) (vo : ustring -> jvalue -> bool) (cid : us
   | _, _ => true
   end.
 
+(* the knot of valid_kind / valid_obj with two additional clauses as parameters: `le` on every value of a
+   property kind, `mm` on every object.  valid_kind_g (fun _ _ => true) (fun _ _ _ => true) IS valid_kind
+   (Props/C02.v: audited_clauses_are_all); valid_kind_x is the instance with the audited clauses. *)
+Section ValidG.
+  Variable sw : world.
+  Variable pattern_ok : ver -> ustring -> bool.
+  Variable le : pkind -> jvalue -> bool.
+  Variable mm : (ustring -> jvalue -> bool) -> ustring -> jvalue -> bool.
+
+  Fixpoint valid_kind_g (fuel : nat) (k : pkind) (j : jvalue) {struct fuel} : bool :=
+    match fuel with
+    | O => false
+    | S f => le k j && valid_kind_body sw (valid_kind_g f) (valid_obj_g f) k j
+    end
+  with valid_obj_g (fuel : nat) (cid : ustring) (j : jvalue) {struct fuel} : bool :=
+    match fuel with
+    | O => false
+    | S f => valid_obj_body sw (valid_kind_g f) (jconstr pattern_ok (S f)) cid j && mm (valid_obj_g f) cid j
+    end.
+End ValidG.
+
 Section ValidX.
   Variable sw : world.
   Variable pattern_ok : ver -> ustring -> bool.
 
-  Fixpoint valid_kind_x (fuel : nat) (k : pkind) (j : jvalue) {struct fuel} : bool :=
-    match fuel with
-    | O => false
-    | S f => leaf_extra k j && valid_kind_body sw (valid_kind_x f) (valid_obj_x f) k j
-    end
-  with valid_obj_x (fuel : nat) (cid : ustring) (j : jvalue) {struct fuel} : bool :=
-    match fuel with
-    | O => false
-    | S f => valid_obj_body sw (valid_kind_x f) (jconstr pattern_ok (S f)) cid j && marking_match sw (valid_obj_x f) cid j
-    end.
+  Definition valid_kind_x : nat -> pkind -> jvalue -> bool := valid_kind_g sw pattern_ok leaf_extra (marking_match sw).
+  Definition valid_obj_x : nat -> ustring -> jvalue -> bool := valid_obj_g sw pattern_ok leaf_extra (marking_match sw).
 
   Definition explain_obj_x (fuel : nat) (cid : ustring) (j : jvalue) : list why :=
     match find_class (wclasses sw) cid, j with
